@@ -20,6 +20,7 @@ type Solver struct {
 	bin      string
 	args     []string
 	defined  map[int]string // term id -> smt name (valid since last reset)
+	poisoned bool           // an "(error" line was seen: every further answer on this path is Unknown, the process is replaced at Reset
 	declared map[string]bool
 	Queries  int
 	Trivial  int
@@ -74,6 +75,11 @@ func (s *Solver) send(str string) {
 }
 
 func (s *Solver) Reset() {
+	if s.poisoned {
+		// the previous path saw a solver error: its output stream may be out of step - start a fresh process
+		s.poisoned = false
+		s.restart()
+	}
 	s.defined = map[int]string{}
 	s.declared = map[string]bool{}
 	if strings.Contains(s.bin, "cvc5") {
@@ -164,6 +170,10 @@ func (s *Solver) readLine() string {
 // Check asks whether (asserted ∧ extra) is satisfiable. If wantModel and sat, values of vars are returned.
 func (s *Solver) Check(extra *Term, vars []*Term) (Verdict, map[string]string) {
 	s.Queries++
+	if s.poisoned {
+		s.Unknowns++
+		return Unknown, nil
+	}
 	if extra != nil && extra.IsConst() {
 		s.Trivial++
 		if !extra.cBool() {
@@ -172,6 +182,10 @@ func (s *Solver) Check(extra *Term, vars []*Term) (Verdict, map[string]string) {
 			r := s.readLine()
 			if r == "unsat" {
 				return Unsat, nil
+			}
+			if strings.HasPrefix(r, "(error") {
+				fmt.Fprintf(os.Stderr, "SOLVER ERROR: %s\n", r)
+				s.poisoned = true
 			}
 			return Unknown, nil
 		}
@@ -203,7 +217,9 @@ func (s *Solver) Check(extra *Term, vars []*Term) (Verdict, map[string]string) {
 	for strings.HasPrefix(r, "(error") || r == "" || r == "unsupported" {
 		if strings.HasPrefix(r, "(error") {
 			fmt.Fprintf(os.Stderr, "SOLVER ERROR: %s\n", r)
-			s.send("(pop 1)\n")
+			// an error line means the solver rejected something we sent (possibly a definition much earlier): answers
+			// can no longer be matched to queries, so nothing further is believed on this path
+			s.poisoned = true
 			s.Unknowns++
 			return Unknown, nil
 		}
